@@ -47,15 +47,22 @@ CLAIMED.update({
          "once and only in CLOSED) and the forward-only rank are proved for every unit that writes the fields involved "
          "(sendClose, sendCloseFrame, onCloseFrame, dropConnection, _fail_connection, _protocol_violation, the four timeout "
          "handlers, _connectionLost x3, sendMessage, sendPing, sendPong); close payload format/limits, clean-close reporting "
-         "and the pending-drop-timer clause are postconditions.",
+         "and the pending-drop-timer clause are postconditions.  The streaming send API (beginMessage, beginMessageFrame, "
+         "sendMessageFrameData, endMessage) is under contract too: once the connection is not OPEN every call is ignored -- "
+         "no octet is submitted to the transport and the send automaton does not move -- wherever in a message or frame the "
+         "application is.",
     note=WS_NOTE + " Histories: the step-to-history induction is the standard argument over the per-unit obligations; the "
-         "closed-world writer scan and the streaming send API (beginMessage*/sendMessageFrame*) are not yet included.",
-    technique="contract-based deductive verification: two-state object invariant per writer, z3"),
+         "closed-world writer scan is not included; sendMessageFrame (a composition of two units under contract) and "
+         "streaming with compression are not units of their own.",
+    technique="contract-based deductive verification: two-state object invariant per writer, z3; streaming counterexamples "
+              "replayed on a real client / server pair"),
  "C16": dict(category="other",
     text="Proof of all obligations except one listed known finding: onMessageFrameBegin/onFrameBegin/processData[header] "
          "fail with 1009 iff a configured limit is exceeded by the *declared* length, before any payload octet is "
-         "buffered; nothing is buffered or delivered after failing; sendMessage refuses over-limit payloads with nothing "
-         "written (loop invariant over every fragmentation). Known finding (open): deflate decompression cap truncates.",
+         "buffered; nothing is buffered or delivered after failing; sendMessage refuses over-limit payloads (the size on the "
+         "wire: after compression where an extension is negotiated) with nothing written and the compression context left "
+         "in step with the peer (loop invariant over every fragmentation). Known finding (open): deflate decompression cap "
+         "truncates.",
     note=WS_NOTE + " zlib is an assumed abstract stream (decompress(data, n) returns at most n octets, rest in unconsumed_tail).",
     technique="contract-based deductive verification: AST->VC, loop invariants, z3; known finding replayed on real zlib"),
  "C17": dict(category="proof",
@@ -172,12 +179,19 @@ CLAIMED.update({
          "hands them on once, unmasked with the key continued from the running offset, and ends the frame exactly "
          "when its declared length is reached; the chopped / synchronous write queue is FIFO (everything handed to "
          "sendData is in order on the wire or still queued; a direct write happens only with an empty queue); "
-         "sendMessage emits one well-formed frame sequence carrying exactly the payload for every fragmentation, "
+         "sendMessage emits one well-formed frame sequence carrying exactly the payload for every fragmentation -- with a "
+         "compression extension negotiated, exactly the compressor's complete output for it (abstract compressor: "
+         "uninterpreted functions of history and input), RSV1 on the first frame only; the streaming send API is proved "
+         "frame by frame: beginMessageFrame submits exactly enc_header(FIN=0, RSV=0, the message's opcode on the first "
+         "frame and 0 afterwards, MASK by role, minimal length) plus a fresh key, sendMessageFrameData at most the octets "
+         "still missing from the announced length, masked from the running offset, and reports what is missing / left "
+         "over, endMessage one empty final continuation frame; "
          "header decision for all 2^16 header octet pairs, reassembly and exactly-once delivery (shared units with "
          "C02/C16).",
     note=WS_NOTE + " The induction from the per-call contracts to whole streams (any segmentation of a well-formed frame "
-         "sequence decodes to the same messages) is the standard argument and is NOT mechanised; compression (C12), the "
-         "streaming send API, PreparedMessage and the hand-over after the HTTP handshake are not covered: level 'other'. "
+         "sequence decodes to the same messages) is the standard argument and is NOT mechanised; the codecs behind the "
+         "compressor interface (C12), streaming with a compression extension (beginMessage / sendMessageFrame with "
+         "send_compressed), PreparedMessage and the hand-over after the HTTP handshake are not covered: level 'other'. "
          "Undecided sequence-theory obligations are handed to a boundary-case search on the real protocol classes which "
          "can only confirm violations.",
     technique="contract-based deductive verification: AST->VC, ghost wire/queue state, spec encoder from RFC 6455, z3 "
@@ -236,13 +250,18 @@ CLAIMED.update({
          "its own direction's window size and context-takeover mode and decompresses with the peer's, keeping a context "
          "across messages exactly when takeover applies; lemma: after a successful negotiation both ends hold the same "
          "effective parameters for both directions (what the accept's extension string announces is decided by "
-         "exhaustive enumeration of all admissible accepts on the real code).",
+         "exhaustive enumeration of all admissible accepts on the real code).  Send side (WebSocketProtocol.sendMessage, "
+         "over an abstract compressor with ghost history): a message is sent as the compressor's complete output for it "
+         "with RSV1 on the first frame only -- for every fragmentation --, a do-not-compress message bypasses the compressor "
+         "and travels in the clear with RSV1 clear, and the invariant 'every message the current compressor has absorbed "
+         "went out in full, flagged' is preserved on every exit, including a message refused for its size.",
     note="Trusted: z3, pyvc, int(text) as a function of the text, zlib as recorded constructor calls. Not covered (level "
          "'other'): losslessness of the codecs themselves (zlib, bz2, snappy, brotli are third-party), "
          "_parseExtensionsHeader and the handshake-side extension handling (C07), RSV1 on receive with a negotiated "
-         "extension, the bzip2 / snappy / brotli negotiation classes.",
+         "extension, streaming send with compression, the bzip2 / snappy / brotli negotiation classes.",
     technique="contract-based deductive verification: AST->VC, optional-key dictionaries, contract-level lemma program, z3; "
-              "one finite-domain lemma by exhaustive enumeration"),
+              "one finite-domain lemma by exhaustive enumeration; send-side counterexamples replayed on a real client / "
+              "server pair with real zlib"),
 })
 
 CLAIMED.update({
